@@ -265,7 +265,7 @@ def modelled_members_and_casts():
     replace, split, substring, repeat, parse_int / parse_bool / parse_float with their strconv error texts), list sort,
     range / option / any-object members, indexing with a missing key. Kept outside the zones of the open findings:
     an annotated let whose initialiser's static kind is neither `any` nor the annotated kind (M1: the interpreter
-    drops the variable), element assignment after `concat` (M2: shared element cells), `->` / `~>` (M3)."""
+    drops the variable), element assignment after `concat` (M2: shared element cells)."""
     return [
  # --- float ** (math.Pow): integral exponents, +-0.5, special values; compound assignment
  'fn main() { println(2.0 ** 10.0, 1.5 ** 2.0, 2.0 ** -1.0, 0.0 ** 0.0, 4.0 ** 0.5, 0.25 ** -0.5, (-2.0) ** 3.0, (-2.0) ** 2.0, 1.0 ** 1000.0, 10.0 ** 15.0, 0.5 ** 10.0, 2.0 ** -10.0); }',
@@ -332,6 +332,9 @@ def modelled_members_and_casts():
  'fn main() { let d = new { ? }; d.set("b", 1); d.set("a", [1.5, 2.0]); d.set("c d", new { x: ?"y" }); println(d.to_json()); println(d.to_json_indent()); let s = "tab\\there\\\\back"; println([s, "\\n", "</script>"].to_json()); let r = [s].to_json().parse_json() as [str]; println(r[0] == s, r); }',
  'fn p(s: str) { try { let v: { ? } = s.parse_json(); println(v); } catch e { println(e.message); }; } fn main() { p("{\\"a\\": 1, \\"b\\": [1, 2.5, \\"x\\", true, false, null], \\"c\\": {\\"d\\": {}}, \\"a\\": 2}"); p(" { } "); p("[1]"); p("{\\"u\\": \\"\\\\u00e9\\\\n\\\\/\\", \\"n\\": -0, \\"m\\": 2.0, \\"k\\": -12.25}"); }',
  'fn main() { let l: [int] = "[1, 2, 3]".parse_json(); println(l, l.len()); let f: [float] = "[1.5, 2.25]".parse_json(); println(f); try { let g: [float] = "[1.5, 2]".parse_json(); println(g); } catch e { println(e.message); } let o = "{\\"a\\": {\\"b\\": [null, 1]}}".parse_json() as { a: { b: [?int] } }; println(o.a.b, o.to_json()); let c = "{\\"keys\\": 3, \\"name\\": \\"door\\"}".parse_json() as { keys: int, name: str }; println(c.name, c.keys + 1, c.to_json()); }',
+ # --- `->` (field of an any-object as an option) and `~>` (the same, unwrapped; a missing key throws)
+ 'fn main() { let o = new { ? }; o.set("k", 1); o.set("s", "x"); let a: int = o~>k; let b: ?int = o->k; let c: ?int = o->zz; let s: ?str = o->s; println(a, b, c, s); try { let d: int = o~>zz; println(d); } catch e { println(e.message, e.line, e.column); } try { let t: int = o~>s; println(t); } catch e { println(e.message); } for i in 0..3 { let m: ?int = o->missing; println(i, m); } }',
+ 'fn get(o: { ? }, dflt: int) -> int { let v: ?int = o->n; v.unwrap_or(dflt) } fn main() { let o = new { ? }; println(get(o, 7)); o.set("n", 3); println(get(o, 7)); let p = new { n: 5 } as { ? }; println(get(p, 7)); let q: ?int = p->n; println(q.unwrap() + (p~>n as int)); }',
  # --- compare_lev
  'fn main() { println("kitten".compare_lev("sitting"), "".compare_lev("abc"), "abc".compare_lev(""), "héllo".compare_lev("hello"), "same".compare_lev("same"), "flaw".compare_lev("lawn"), "a".compare_lev("bcdef"), "sunday".compare_lev("saturday")); }',
  # --- conversions inside larger programs
